@@ -144,6 +144,8 @@ def reject_cases(doc):
         ("cycle_back_to_root", doc + [inc("x.jst")], {"x.jst": t + "INCLUDE main.jst\n"}, [], []),
         ("jsight_in_included", doc + [inc("j.jst")], {"j.jst": "JSIGHT 0.3\n" + t}, [], []),
         ("no_name", doc + [{"t": "raw", "lines": ["INCLUDE"], "label": "INCLUDE"}], {}, [], []),
+        # a directory of the project that is a symbolic link to a directory outside it
+        ("symlink_escape", doc + [inc("ln/canary.jst")], {}, [], [], {"ln": "../outside"}),
     ]
     for bad in ["/etc/passwd", "../outside/canary.jst", "./x.jst", "a/../../outside/canary.jst", "a\\\\x.jst",
                 "sub/../x.jst", "..", "a/./x.jst", "a/.."]:
@@ -156,6 +158,8 @@ def confined(o):
     for op, p in o.get("fileops") or []:
         if op == "read" and (p.startswith("..") or p.startswith("/")):
             return "%s of %r which is outside the project directory" % (op, p)
+        if op == "read-resolves-to":
+            return "a file outside the project directory was opened through a symbolic link: it resolves to %r" % p
     return None
 
 
@@ -191,13 +195,14 @@ def main(tier):
                     cases.append({"id": rid, "files": ff, "root": "main.jst", "rawroot": spelling})
                     meta[rid] = (baseid, nm + ":root=" + spelling, m, main_text, files)
         if n % (1 if tier == "thorough" else 10) == 0:
-            for nm, main_blocks, files, dirs, noread in reject_cases(d):
+            for rc in reject_cases(d):
+                nm, main_blocks, files, dirs, noread = rc[:5]
                 cid = "x%d_%s" % (n, nm)
                 main_text = apidoc.render(main_blocks)[0]
                 ff = {"main.jst": b64(main_text)}
                 ff.update({k: b64(v) for k, v in files.items()})
                 cases.append({"id": cid, "files": ff, "root": "main.jst", "dirs": dirs, "noread": noread,
-                              "outside": ["outside/canary.jst"]})
+                              "outside": ["outside/canary.jst"], "symlinks": rc[5] if len(rc) > 5 else {}})
                 rej[cid] = (nm, m, main_text, files)
     for nm, flat_text, main_text, files in twin_projects():
         cases.append(rel.case("twf_" + nm, flat_text))
